@@ -1259,6 +1259,35 @@ func boundaryFamily() []nsx.Input {
 			out = append(out, nsx.Input{Script: sc, Vars: map[string]string{}, Balances: map[string]map[string]string{"a": {"USD": "30"}, acc: {"USD": "10"}}, Meta: map[string]map[string]string{}, Note: "boundary:world-like-account"})
 		}
 	}
+	// two monetary literals of one asset whose amounts agree in their low 64 bits (or low 32), as amount, cap and overdraft
+	for _, pair := range [][2]string{{"5", "18446744073709551621"}, {"18446744073709551621", "5"}, {"0", "18446744073709551616"}, {"7", "4294967303"}, {"5", "340282366920938463463374607431768211461"}} {
+		bal := map[string]map[string]string{"a": {"USD": "100"}, "c": {"USD": "36893488147419103232"}}
+		for _, sc := range []string{
+			"send [USD " + pair[0] + "] (\n  source = @c\n  destination = @b\n)\nsend [USD " + pair[1] + "] (\n  source = @c\n  destination = @d\n)\n",
+			"send [USD " + pair[1] + "] (\n  source = {\n    max [USD " + pair[0] + "] from @a\n    @world\n  }\n  destination = @b\n)\n",
+			"send [USD " + pair[0] + "] (\n  source = @a allowing overdraft up to [USD " + pair[1] + "]\n  destination = @b\n)\nsend [USD 200] (\n  source = @a allowing overdraft up to [USD " + pair[0] + "]\n  destination = @b\n)\n",
+			"set_tx_meta(\"m\", [USD " + pair[0] + "])\nsend [USD " + pair[1] + "] (\n  source = @world\n  destination = @b\n)\n",
+		} {
+			out = append(out, nsx.Input{Script: sc, Vars: map[string]string{}, Balances: bal, Meta: map[string]map[string]string{}, Note: "boundary:literals-equal-in-low-bits"})
+		}
+	}
+	// accounts whose name is `world` up to letter case are ordinary, funded accounts — as literals and through variables
+	for _, acc := range []string{"World", "WORLD", "wOrld"} {
+		bal := map[string]map[string]string{acc: {"USD": "100"}, "b": {"USD": "50"}}
+		for _, sc := range []string{
+			"send [USD *] (\n  source = @" + acc + "\n  destination = @d\n)\n",
+			"send [USD 130] (\n  source = @" + acc + "\n  destination = @d\n)\n",
+			"send [USD 30] (\n  source = {\n    @" + acc + "\n    @b\n  }\n  destination = @d\n)\n",
+			"vars {\n  account $first\n}\nsend [USD 30] (\n  source = {\n    $first\n    @b\n  }\n  destination = @d\n)\n",
+			"vars {\n  account $first\n}\nsend [USD 130] (\n  source = $first\n  destination = @d\n)\n",
+		} {
+			in := nsx.Input{Script: sc, Vars: map[string]string{}, Balances: bal, Meta: map[string]map[string]string{}, Note: "boundary:world-letter-case"}
+			if strings.Contains(sc, "$first") {
+				in.Vars = map[string]string{"first": acc}
+			}
+			out = append(out, in)
+		}
+	}
 	// save between two takes: what a save keeps back is never handed out again, whatever the sign of the balance
 	for _, b := range []int64{-5, 0, 10} {
 		bal := map[string]map[string]string{"a": {"USD": fmt.Sprint(b)}, "c": {"USD": "4"}}
@@ -1399,7 +1428,7 @@ func main() {
 	fam := boundaryFamily()
 	for i, in := range fam {
 		// quick tier: a seeded third of the family; thorough: all of it
-		if r.Thorough() || g.Intn(3) == 0 || i%97 == 0 || strings.HasPrefix(in.Note, "boundary:variable-spelling") || in.Note == "boundary:save-then-credit" || in.Note == "boundary:world-in-front-of-a-portioned-source-kept" || in.Note == "boundary:capped-ordered-source-revisits-account" || in.Note == "boundary:foreign-character" || in.Note == "boundary:number-literal" || in.Note == "boundary:self-posting-then-spend" || in.Note == "boundary:same-pair-twice-with-refill" || in.Note == "boundary:world-like-account" {
+		if r.Thorough() || g.Intn(3) == 0 || i%97 == 0 || strings.HasPrefix(in.Note, "boundary:variable-spelling") || in.Note == "boundary:save-then-credit" || in.Note == "boundary:world-in-front-of-a-portioned-source-kept" || in.Note == "boundary:capped-ordered-source-revisits-account" || in.Note == "boundary:foreign-character" || in.Note == "boundary:number-literal" || in.Note == "boundary:self-posting-then-spend" || in.Note == "boundary:same-pair-twice-with-refill" || in.Note == "boundary:world-like-account" || in.Note == "boundary:literals-equal-in-low-bits" || in.Note == "boundary:world-letter-case" {
 			one(r, in)
 			r.Count("boundary-family")
 		}
